@@ -220,7 +220,10 @@ def _run_segment(seg: Dict[str, Any], out: Dict[str, Any]) -> None:
                 _mat.write_tree(root, st["files"])
             for m in mods.values():
                 if st["var"] in m.__dict__:
-                    setattr(m, st["var"], eval(st["src"], m.__dict__))
+                    if st.get("inplace"):
+                        exec(st["inplace"], m.__dict__)      # same object, mutated
+                    else:
+                        setattr(m, st["var"], eval(st["src"], m.__dict__))
         elif op == "fail":
             L.FAIL.clear()
             for (name, cls) in st["fail"].items():
